@@ -260,6 +260,11 @@ theorem not32_natCast (a : Nat) (h : a < W32) : wrap 32 (inot (a : Int)) = ((not
   unfold W32 at h
   omega
 
+/-- `-x` on uint32 -/
+theorem neg32_natCast (v : Nat) : wrap 32 (-(v : Int)) = ((neg32 v : Nat) : Int) := by
+  unfold wrap neg32 W32
+  omega
+
 /-- `1 << k` for a bit position of a word -/
 theorem bit_natCast (e : Int) (k : Nat) (hk : e = k) (h32 : k < 32) :
     wrap 32 (ishl 1 e) = ((1 <<< k : Nat) : Int) := by
